@@ -49,7 +49,7 @@ def run(tier, replay=None):
     try:
         mc(chk, tier)
         exe = vlib.build_cxx("asm_case", ["asm_case.cpp"])
-        cases, res, recs, keep, notes, tdir = asmlib.layout_pipeline(tier, d, vlib.rng(5), exe)
+        cases, res, recs, keep, notes, tdir = asmlib.layout_pipeline(tier, d, vlib.rng(5), exe, passes=True)
         nrej = 0
         for c, r in zip(cases, res):
             if r['status'] == 'timeout':
